@@ -735,7 +735,7 @@ impl Vm {
       let class = instance.class();
 
       match self.inline_cache().get_property_cache(inline_slot, class) {
-        Some(property_slot) => {
+        Some(property_slot) if property_slot < instance.len() => {
           let value = self.fiber.pop();
 
           self.fiber.drop();
@@ -744,8 +744,12 @@ impl Vm {
           instance[property_slot] = value;
           return ExecutionSignal::Ok;
         },
-        None => {
-          let property_slot = class.get_field_index(&name);
+        _ => {
+          // a field the class gained after this instance was created
+          // is undeclared for the instance
+          let property_slot = class
+            .get_field_index(&name)
+            .filter(|slot| (*slot as usize) < instance.len());
           let value = self.fiber.pop();
 
           self.fiber.drop();
@@ -859,13 +863,18 @@ impl Vm {
 
     if_let_obj!(ObjectKind::Instance(instance) = (value) {
       let class = instance.class();
+      // an instance can be older than fields its class gained since, the import
+      // object of a module that goes on exporting, such a field is undeclared for it
       match self.inline_cache().get_property_cache(inline_slot, class) {
-        Some(property_slot) => {
+        Some(property_slot) if property_slot < instance.len() => {
           self.fiber.peek_set(0, instance[property_slot]);
           return ExecutionSignal::Ok;
         },
-        None => {
-          if let Some(property_slot) = class.get_field_index(&name) {
+        _ => {
+          if let Some(property_slot) = class
+            .get_field_index(&name)
+            .filter(|slot| (*slot as usize) < instance.len())
+          {
             self
               .inline_cache_mut()
               .set_property_cache(inline_slot, class, property_slot as usize);
